@@ -258,7 +258,10 @@ def run(run):
         plan = [('extra', EXTRA, dict(subset_counts=(1, 2), fmax=2, seeds=(r, (r + 2) % 5))),
                 ('struct', cat['struct'], dict(subset_counts=(1, 2) if thorough else (1,), fmax=2, seeds=((r + 1) % 5,))),
                 ('bitmap', cat['bitmap'], dict(subset_counts=(1, 2) if thorough else (2,), fmax=2, seeds=((r + 2) % 5,))),
-                ('plain', cat['plain'], dict(subset_counts=(2,), seeds=((r + 3) % 5,), compressions=(False, True) if thorough else (r % 2 == 0,)))]
+                ('plain', cat['plain'], dict(subset_counts=(2,), seeds=((r + 3) % 5,), compressions=(False, True) if thorough else (r % 2 == 0,))),
+                ('rnd_plain', cat['rnd_plain'], dict(subset_counts=(1,), seeds=((r + 4) % 5,), compressions=(r % 2 == 1,))),
+                ('rnd_struct', cat['rnd_struct'], dict(subset_counts=(2,) if thorough else (1,), fmax=2, seeds=(r,))),
+                ('rnd_bitmap', cat['rnd_bitmap'], dict(subset_counts=(2,), fmax=2, seeds=((r + 1) % 5,), compressions=(False, True) if thorough else (False,)))]
         cli_pick = []
         for label, templates, kw in plan:
             res = tree.gen_run(wd, 'MC_c09_' + label, templates, slices=(), path_depth=0, **kw)
